@@ -136,8 +136,8 @@ func parseBracketContent(content string) (FieldPart, error) {
 	content = strings.TrimSpace(content)
 
 	// Check if it's a string key (with quotes)
-	if (strings.HasPrefix(content, "'") && strings.HasSuffix(content, "'")) ||
-		(strings.HasPrefix(content, "\"") && strings.HasSuffix(content, "\"")) {
+	if len(content) >= 2 && ((strings.HasPrefix(content, "'") && strings.HasSuffix(content, "'")) ||
+		(strings.HasPrefix(content, "\"") && strings.HasSuffix(content, "\""))) {
 		// String key
 		key := content[1 : len(content)-1] // Remove quotes
 		return FieldPart{
